@@ -284,7 +284,7 @@ def check_range(W, rec, L, h, supply, bs, method, ifrange=None):
         body = [b""]
         for i in range(0, L, bs):
             body += [res[i:i + bs], b""]
-    elif supply in ("list", "list-noauto"):
+    elif supply in ("list", "list-noauto", "list-passthrough"):
         body = [res[i:i + bs] for i in range(0, L, bs)]
     elif supply == "liststr":
         # the body given as text items; Range / Content-Range positions count bytes of the encoded representation
@@ -309,7 +309,7 @@ def check_range(W, rec, L, h, supply, bs, method, ifrange=None):
         if bs % 2:
             r.content_length = L
     else:
-        r = Response(body, direct_passthrough=supply.startswith("fw"))
+        r = Response(body, direct_passthrough=supply.startswith("fw") or supply == "list-passthrough")
     headers = {"Range": h} if h else {}
     etag_ok = True
     if ifrange is not None:
@@ -322,7 +322,15 @@ def check_range(W, rec, L, h, supply, bs, method, ifrange=None):
     try:
         r.make_conditional(env, accept_ranges=True, complete_length=L)
         it, status, hdl = r.get_wsgi_response(env)
-        data = b"".join(it)
+        if bs % 2:
+            data = b"".join(it)
+        else:
+            # a server / middleware that looks at the first chunk before it sends the rest (werkzeug's own
+            # run_wsgi_app does): iter() is called again on what it already started to consume
+            rec.observe("bodies_consumed_peek_then_rest")
+            it2 = iter(it)
+            first = next(it2, b"")
+            data = first + b"".join(iter(it2))
         if hasattr(it, "close"):
             it.close()
         st = int(status[:3])
@@ -391,6 +399,16 @@ def check_sendfile(W, rec, L, h, kind, tmpdir):
                 with open(p, "wb") as f:
                     f.write(res)
             r = send_file(p, env, conditional=True)
+        elif kind == "fileobj-offset":
+            # a real binary file object whose first bytes (a header the application consumed) are not part of the
+            # resource: what is served - whole or in part - starts at the file's current position
+            p = os.path.join(tmpdir, f"h{L}.bin")
+            if not os.path.exists(p):
+                with open(p, "wb") as f:
+                    f.write(b"HDR1" + res)
+            fobj = open(p, "rb")  # noqa: SIM115 (closed by the response)
+            fobj.read(4)
+            r = send_file(fobj, env, mimetype="application/octet-stream", conditional=True)
         else:
             spy = FSpy(res)
             r = send_file(spy, env, mimetype="application/octet-stream", conditional=True)
@@ -404,6 +422,8 @@ def check_sendfile(W, rec, L, h, kind, tmpdir):
     rec.observe(f"status:{st}")
     contracts.LOG.take()
     exp = ref_range(h, L) if L > 0 else ("full",)
+    if kind == "fileobj-offset" and st == 200:
+        exp = ("full",)  # a file object of unknown size: the Range header may be ignored, the complete body is sent
     if exp[0] == "loose":
         exp = ("any",)
         if st not in (200, 206, 416):
@@ -469,6 +489,8 @@ def run(shard, rec, rng):
                         check_range(W, rec, L, h, "liststr", bs, "GET")
                     with rec.guard({"L": L, "Range": h, "supply": "list-noauto"}, "C11"):
                         check_range(W, rec, L, h, "list-noauto", bs, "GET")
+                    with rec.guard({"L": L, "Range": h, "supply": "list-passthrough"}, "C11"):
+                        check_range(W, rec, L, h, "list-passthrough", bs, "GET")
             for ifr in IFR[1:]:
                 n += 1
                 if n % of == idx:
@@ -478,7 +500,7 @@ def run(shard, rec, rng):
     try:
         for L in range(0, cfg["maxlen"] + 1, 2):
             for h in RH:
-                for kind in ("path", "bytesio"):
+                for kind in ("path", "bytesio", "fileobj-offset"):
                     n += 1
                     if n % of == idx:
                         with rec.guard({"L": L, "Range": h, "kind": kind}, "C11"):
